@@ -14,6 +14,8 @@ where
     #[inline(always)]
     fn read_into_at(&self, from: usize, to: usize, buf: &mut Vec<T>) {
         let len = self.base.len();
+        #[cfg(anydb_verif)]
+        rawdb::verif_tap::pause("ro-comp:after-len");
         let from = from.min(len);
         let to = to.min(len);
         if from >= to {
@@ -22,7 +24,13 @@ where
         buf.reserve(to - from);
 
         let reader = self.base.region().create_reader();
+        #[cfg(anydb_verif)]
+        rawdb::verif_tap::pause("ro-comp:after-reader");
+        #[cfg(anydb_verif)]
+        crate::verif_locks::tap("pages", &self.pages, false);
         let pages = self.pages.read();
+        #[cfg(anydb_verif)]
+        rawdb::verif_tap::pause("ro-comp:after-pages-lock");
         ReadWriteCompressedVec::<I, T, S>::read_stored_pages_into(&reader, &pages, from, to, buf);
     }
 
@@ -37,6 +45,8 @@ where
         Self: Sized,
     {
         let len = self.base.len();
+        #[cfg(anydb_verif)]
+        rawdb::verif_tap::pause("ro-comp:after-len");
         let from = from.min(len);
         let to = to.min(len);
         if from >= to {
@@ -57,6 +67,8 @@ where
         Self: Sized,
     {
         let len = self.base.len();
+        #[cfg(anydb_verif)]
+        rawdb::verif_tap::pause("ro-comp:after-len");
         let from = from.min(len);
         let to = to.min(len);
         if from >= to {
